@@ -176,7 +176,9 @@ func (h *history) onSynced(string) {
 	h.mu.Lock()
 	st := h.tick()
 	for _, p := range h.pending {
-		h.durable[p] = st
+		if _, ok := h.durable[p]; !ok { // identical re-appends cannot be told apart: keep the first
+			h.durable[p] = st
+		}
 	}
 	h.pending = nil
 	h.mu.Unlock()
